@@ -19,6 +19,9 @@ import (
 // and no second Close frame.
 
 type c16Params struct {
+	// Prop: property the violations are reported under (default C16). Under C02 the
+	// wire is judged as a frame stream: well-formed, and no data frame behind a Close frame.
+	Prop string
 	Name string
 	K    connCfg
 	Init string // local | peer | proto | limit | closeread
@@ -204,6 +207,27 @@ func c16Oracle(c *fw.Ctx, w *vs.World, name string, prm c16Params, st *c16State)
 		violate(c, w, name, "C16/panic/"+locus, w.Panic)
 		return
 	}
+	if prm.Prop == "C02" {
+		res := frame.Validate(st.p.Out, frame.StreamRules{SenderIsClient: prm.K.Client, Deflate: prm.K.Flate})
+		sig := ""
+		for _, f := range res.Frames {
+			sig += fmt.Sprintf("%d", f.Opcode)
+		}
+		c.OutcomeStr(name + "|" + sig)
+		for _, v := range res.Violations {
+			violate(c, w, name, "C02/wire/"+v.Rule+"/"+locus, fmt.Sprintf("%v\nwire: %s", v, describeFrames(res.Frames)))
+			return
+		}
+		if res.FirstClose >= 0 {
+			for i := res.FirstClose + 1; i < len(res.Frames); i++ {
+				if f := res.Frames[i]; f.Opcode <= frame.OpBinary {
+					violate(c, w, name, "C02/wire/data-frame-after-close/"+locus, fmt.Sprintf("data frame %d (opcode %d, %d bytes) follows the Close frame %d: a decoder stops at the Close frame (RFC 6455 5.5.1)\nwire: %s", i, f.Opcode, len(f.Payload), res.FirstClose, describeFrames(res.Frames)))
+					return
+				}
+			}
+		}
+		return
+	}
 	fs, rest := frame.ParseAll(st.p.Out)
 	ci := -1
 	sig := ""
@@ -289,7 +313,37 @@ func c16Scenarios(tier string) []scenario {
 	return scs
 }
 
+// c02CloseScenarios: histories with a streamed message open across a Close frame,
+// judged as a frame stream (C02).
+func c02CloseScenarios(tier string) []scenario {
+	var scs []scenario
+	P := func(p int) explore.Config { return explore.Config{P: p, T: 0, E: 0, Horizon: 120e9} }
+	ks := []connCfg{{Client: false}, {Client: true}, {Client: false, Flate: true, Thr: 1}}
+	if tier == "thorough" {
+		ks = append(ks, connCfg{Client: true, Flate: true, Thr: 1})
+	}
+	for _, k := range ks {
+		for _, prm := range []c16Params{
+			{Name: "local-never-w2", K: k, Init: "local", Echo: "never", Writers: 2},
+			{Name: "local-late-w2", K: k, Init: "local", Echo: "late", Writers: 2},
+			{Name: "peer-w2", K: k, Init: "peer", Echo: "early", Writers: 2},
+			{Name: "closeread-w2", K: k, Init: "closeread", Echo: "early", Writers: 2},
+		} {
+			if tier != "thorough" && (prm.Name == "local-late-w2" || (k.Flate && prm.Name != "local-never-w2")) {
+				continue
+			}
+			prm.Prop = "C02"
+			scs = append(scs, scenario{Name: "ac/" + prm.Name + "/" + k.String(), Cfg: tierCfg(tier, P(1), P(2)), Setup: c16Setup(prm)})
+		}
+	}
+	return scs
+}
+
 func init() {
+	fw.Register(fw.Part{Prop: "C02", Name: "s.afterclose",
+		Units:  func(tier string) []fw.Unit { return scenarioUnits(c02CloseScenarios(tier)) },
+		Replay: replayFn(c02CloseScenarios),
+	})
 	fw.Register(fw.Part{Prop: "C16", Name: "s.afterclose",
 		Units:  func(tier string) []fw.Unit { return scenarioUnits(c16Scenarios(tier)) },
 		Replay: replayFn(c16Scenarios),
